@@ -41,7 +41,7 @@ func mkCellPool(size, maxAge uint) cellPool {
 
 func (p *cellPool) get(sz int) []Cell {
 	p.gen++
-	for i := 0; i < regPoolSize; i++ {
+	for i := 0; i < len(p.cells); i++ {
 		c := p.cells[i]
 		if len(c) == sz {
 			p.cells[i] = nil
@@ -53,7 +53,7 @@ func (p *cellPool) get(sz int) []Cell {
 }
 
 func (p *cellPool) release(c []Cell) {
-	for i := 0; i < regPoolSize; i++ {
+	for i := 0; i < len(p.cells); i++ {
 		if p.exps[i] < p.gen {
 			for i := range c {
 				c[i] = Cell{}
@@ -82,7 +82,7 @@ func mkValuePool(size, maxAge uint) valuePool {
 
 func (p *valuePool) get(sz int) []Value {
 	p.gen++
-	for i := 0; i < regPoolSize; i++ {
+	for i := 0; i < len(p.values); i++ {
 		v := p.values[i]
 		if len(v) == sz {
 			p.values[i] = nil
@@ -94,7 +94,7 @@ func (p *valuePool) get(sz int) []Value {
 }
 
 func (p *valuePool) release(v []Value) {
-	for i := 0; i < regPoolSize; i++ {
+	for i := 0; i < len(p.values); i++ {
 		if p.exps[i] < p.gen {
 			for i := range v {
 				v[i] = Value{}
